@@ -319,7 +319,7 @@ def run(ctx):
         if lines:
             for kind in ("pair", "tree", "hist"):
                 for text, _ in lines:
-                    if '"f":"%s"' % kind in text[:14] and len(text) < 1500:
+                    if text.startswith('{"f":"%s","n":9,"w":8' % kind) and 300 < len(text) < 1500:
                         ctx.sample({"recorded": json.loads(text)})
                         break
             strides.append(count_classes(ctx, lines))
